@@ -68,7 +68,7 @@ int PhaseEntry::SetShift(const char *shift)
     r = gd_alter_entry(D->D, E.field, &E, 0);
 
     if (!r)
-      r = gd_get_constant(D->D, shift, GD_INT64, &E.u.phase.shift);
+      r = gd_cxx_get_scalar(D->D, shift, GD_INT64, &E.u.phase.shift);
   }
   
   return r;
